@@ -30,7 +30,7 @@ from ...entity_query_language.predicate import Symbol
 from ...entity_query_language.symbol_graph import (
     SymbolGraph,
 )
-from ...entity_query_language.utils import make_set
+from ...entity_query_language.utils import make_list, make_set
 
 SymbolType = Type[Symbol]
 """
@@ -245,13 +245,16 @@ class PropertyDescriptor(Symbol):
         if isinstance(value, PropertyDescriptor):
             return
         attr = getattr(obj, self.private_attr_name, None)
+        # copy the new items (in their order, with repetitions) before the container is cleared, because the value can be
+        # the container itself (e.g., obj.field = obj.field or obj.field += [...]).
+        new_items = make_list(value) if self.is_iterable else None
         if self.is_iterable and not isinstance(attr, MonitoredContainer):
             attr = self._ensure_monitored_type(value, obj)
             self._bind_owner_if_container_type(attr, owner=obj)
             setattr(obj, self.private_attr_name, attr)
         if isinstance(attr, MonitoredContainer):
             attr._clear()
-            for v in make_set(value):
+            for v in new_items:
                 attr._add_item(v, inferred=False)
         else:
             setattr(obj, self.private_attr_name, value)
